@@ -106,7 +106,7 @@ def run(pid, tier, seed):
 
         def series(job):
             dist, cont, B, win = job
-            r_ = random.Random(hash(job) & 0xFFFF)
+            r_ = random.Random(sum(str(job).encode()) * 131 + seed)
             out = []
             for nb in decades:
                 blob, span = make_log(dist, B, nb, r_)
